@@ -17,11 +17,10 @@ package core
 //	                 bring the sealed node back with the currently valid shares
 //	restart          shut both nodes down, start two new processes (new Core objects)
 //	                 on the same store, unseal both with the currently valid shares
-//	stepdown         (thorough tier, part S) sys/step-down: the active node stays unsealed
+//	stepdown         (part S) sys/step-down: the active node stays unsealed
 //	                 and becomes the standby, the other node takes over
 //
-// (depth 4 quick / 5 thorough; histories with a step-down: depth 3, thorough only, they
-// cost 10 s of idle wall time each) is replayed on a fresh pair (state = operation list).  The harness keeps the
+// (depth 4 quick / 5 thorough; histories with a step-down: depth 3 / 4) is replayed on a fresh pair (state = operation list).  The harness keeps the
 // share set that is current (a completed rekey replaces it) and a model of the
 // entries written so far.  After EVERY step, only what the statement says:
 //
@@ -148,7 +147,13 @@ type c10haPair struct {
 	shareN   int
 	shareT   int
 	restarts int
+	regained bool // the node that stepped down won the lock back
 }
+
+// pause of a node after sys/step-down before it contends for the lock again (production: 10 s)
+const c10haStepDownSleep = 300 * time.Millisecond
+
+var c10haRegained int64
 
 // c10haOutcome of a step: sig == "" && !timeout = the oracle held.
 type c10haOutcome struct {
@@ -555,6 +560,29 @@ func (p *c10haPair) stepdown() *c10haOutcome {
 	if err := p.nodes[a].StepDown(rootCtx(), req); err != nil {
 		p.t.Fatalf("harness: sys/step-down with the root token failed: %v", err)
 	}
+	// The node that stepped down pauses (c10haStepDownSleep; production: 10 s) before it
+	// contends for the lock again and the standby is already waiting on it, so normally
+	// the standby takes over.  Under heavy load the old node may win the lock back: that
+	// is a leadership change as well (active -> standby -> active on the same Core
+	// object, through the same upgrade path) and is judged the same way.
+	deadline := time.Now().Add(c10haWait)
+	sawStandby := false
+	for {
+		if !p.nodes[b].Standby() && !p.nodes[b].Sealed() {
+			break
+		}
+		if p.nodes[a].Standby() {
+			sawStandby = true
+		} else if sawStandby && !p.nodes[a].Sealed() {
+			p.regained = true
+			c10haRegained++
+			break
+		}
+		if p.nodes[a].Sealed() || time.Now().After(deadline) {
+			break // takeover reports it
+		}
+		time.Sleep(200 * time.Microsecond)
+	}
 	if out := p.takeover(before, "stepped down"); out != nil {
 		return out
 	}
@@ -568,6 +596,10 @@ func (p *c10haPair) stepdown() *c10haOutcome {
 // judged: same keyring as the former active node, reads everything, accepts a write.
 func (p *c10haPair) takeover(before *c10haKR, how string) *c10haOutcome {
 	a, b := p.active, 1-p.active
+	if p.regained {
+		b = a
+		p.regained = false
+	}
 	switch c10haWaitActive(p.nodes[b]) {
 	case "timeout":
 		return &c10haOutcome{timeout: true, desc: fmt.Sprintf("node %d did not become active within the liveness bound after node %d %s", b, a, how)}
@@ -794,13 +826,15 @@ func TestVerifC10HA(t *testing.T) {
 	}
 	// Part S (thorough tier): the same alphabet plus "stepdown" (sys/step-down: the active
 	// node stays unsealed and becomes the standby; it keeps its in-memory state and has
-	// nothing but the upgrade path to catch up).  The node that stepped down sleeps 10 s
-	// before it contends for the lock again, so every such history costs about 10 s of
-	// (idle) wall time; only histories that contain a step-down are run here.
-	sdDepth := 0
+	// nothing but the upgrade path to catch up).  The node that stepped down pauses
+	// (c10haStepDownSleep, production: 10 s, shortened through the package variable the
+	// repository's cluster tests also change) before it contends for the lock again;
+	// only histories that contain a step-down are run here.
+	sdDepth := 3
 	if vout.Thorough() {
-		sdDepth = 3
+		sdDepth = 4
 	}
+	defer vault.VerifSetStepDownSleep(vault.VerifSetStepDownSleep(c10haStepDownSleep))
 	if v, err := strconv.Atoi(os.Getenv("VERIF_C10HA_SDDEPTH")); err == nil {
 		sdDepth = v
 	}
@@ -896,6 +930,7 @@ func TestVerifC10HA(t *testing.T) {
 
 	res.Add("failovers_performed", st.failovers)
 	res.Add("stepdowns_performed", st.stepdowns)
+	res.Add("stepdown_lock_regained_by_same_node", c10haRegained)
 	res.Add("rekeys_completed", st.rekeys)
 	res.Add("key_rotations_completed", st.rotations)
 	res.Add("root_rotations_completed", st.rootRotations)
